@@ -24,6 +24,7 @@ RULE = (
     "under interference equals the dump of the same program built alone, and it computes the reference. (stress) 8 "
     "free-running threads x 20-60 calls of one DAG with distinct arguments. non-trivial = some call or outside-DAG "
     "invocation happened while another thread was paused inside a description, or a stress case."
+    " Round 8-10 additions: builds that nest a DAG and builds refused inside the nested expansion; every worker thread carries the same thread name."
 )
 ASSUMPTIONS = [
     "setup nodes of the shared DAG are run before sharing; one executor per thread (documented restrictions)",
